@@ -309,6 +309,37 @@ theorem right_order_exact (p : ℤ) (I : LeftIdeal) (O' : Lattice)
     hLat p O' * hLat p O' ≤ hLat p O' :=
   isRightOrderExact_sound p I O' hI hinv h
 
+/-- **invertibility of constructed ideals**: for `I = create_from_primitive(x, N)` with `x` primitive in a certified order
+    and `gcd(N(x), N) ≠ 0` prime to `p`: `N(I) ∈ Ī·I`. -/
+theorem create_from_primitive_invertible (p : ℤ) (x : Elem) (N : ℤ) (O : Lattice) (prev nx : ℤ)
+    (ho : isOrderCert p O = true) (hg : gramOk p O = true) (hx : x.denom ≠ 0)
+    (hxO : (latContains O x).1 = true) (hprim : isPrimitive O x = true)
+    (hn : nrm (val p x) = nx) (hn0 : Int.gcd nx N ≠ 0)
+    (hcop : ∀ ℓ : ℕ, ℓ.Prime → ℓ ∣ Int.gcd nx N → ¬ (ℓ : ℤ) ∣ p) :
+    (((createFromPrimitive p x N O prev).norm : ℤ) : H p) ∈
+      conjS (hLat p (createFromPrimitive p x N O prev).lattice) * hLat p (createFromPrimitive p x N O prev).lattice :=
+  createFromPrimitive_norm_mem_conj_mul p x N O prev nx ho hg hx hxO hprim hn hn0 hcop
+
+/-- **right order of a constructed ideal** (composition of the above): for `I = create_from_primitive(x, N)` as in
+    `create_from_primitive_invertible`, a lattice accepted by the exact certificate is *the* right order of `I`. -/
+theorem right_order_of_constructed_ideal (p : ℤ) (x : Elem) (N : ℤ) (O O' : Lattice) (prev nx : ℤ)
+    (ho : isOrderCert p O = true) (hg : gramOk p O = true) (hx : x.denom ≠ 0)
+    (hxO : (latContains O x).1 = true) (hprim : isPrimitive O x = true)
+    (hn : nrm (val p x) = nx) (hn0 : Int.gcd nx N ≠ 0)
+    (hcop : ∀ ℓ : ℕ, ℓ.Prime → ℓ ∣ Int.gcd nx N → ¬ (ℓ : ℤ) ∣ p)
+    (h : isRightOrderExact p (createFromPrimitive p x N O prev) O' = true) :
+    hLat p O' = transporter (hLat p (createFromPrimitive p x N O prev).lattice)
+      (hLat p (createFromPrimitive p x N O prev).lattice) := by
+  obtain ⟨hd, hnO, _, _⟩ := isOrderCert_sound p O ho
+  have hxmem : val p x ∈ hLat p O := (latContains_iff_val p O x hd hx hnO).1 hxO
+  have e : (createFromPrimitive p x N O prev).order = O := rfl
+  have h1 : IsLeftIdealOfNorm (hLat p (createFromPrimitive p x N O prev).order)
+      (hLat p (createFromPrimitive p x N O prev).lattice) (createFromPrimitive p x N O prev).norm := by
+    rw [e]
+    exact create_from_primitive_is_ideal_of_norm p x N O prev nx hd hx (isOrder_of_cert p O ho) hxmem hn
+  exact (right_order_exact p (createFromPrimitive p x N O prev) O' h1
+    (create_from_primitive_invertible p x N O prev nx ho hg hx hxO hprim hn hn0 hcop) h).1
+
 /-- the invertibility hypothesis `N(I) ∈ Ī·I` follows from a successful generator search -/
 theorem norm_mem_conj_mul_of_generator_found (p : ℤ) (I : LeftIdeal) (n bound : ℤ) (g : Elem)
     (hd : I.lattice.denom ≠ 0) (hord : IsOrder (hLat p I.order))
